@@ -356,6 +356,9 @@ func c20ServeProp(t *testing.T, k *verifkit.Kit) func(c c20Serve) error {
 		for _, e := range evlog {
 			switch e.What {
 			case "run-start":
+				if started[e.Task] {
+					return verifkit.Violf("C20/task-run-twice", "task %d was run more than once\n%s", e.Task, desc())
+				}
 				started[e.Task] = true
 			case "run-fail":
 				ended[e.Task] = e.At
